@@ -1,6 +1,6 @@
 (* Props/C08.v *)
 From Coq Require Import List NArith Arith Bool Lia.
-From SKV Require Import Base.Lex Txn.WriteSet Spec.Store Spec.Cursor Spec.Machine.
+From SKV Require Import Base.Lex Txn.WriteSet Txn.WriteSetSpec Txn.WriteSet_proofs Spec.Store Spec.Cursor Spec.Machine.
 Import ListNotations.
 
 (* a savepoint followed at once by a rollback to it changes nothing (base case of rollback_exact) *)
@@ -24,3 +24,39 @@ Proof.
   destruct es as [|e0 es0]; [congruence|].
   f_equal. apply IH. intros k' es' Hin. apply (Hs k' es'). right. exact Hin.
 Qed.
+
+(* After ANY program of writes / savepoints / rollbacks-to-savepoint the write-set model (the
+   transcription of Transaction::write etc.) shows exactly what the frame specification shows:
+   reads see the latest surviving pending write (a pending delete hides the key), a commit would
+   apply the surviving writes in issue order, and rollback-to-savepoint is possible iff a savepoint
+   is open. *)
+Theorem C08_ws_refines_frames : ws_refines_frames_stmt.
+Proof. exact ws_refines_frames. Qed.
+
+(* rolling back to a savepoint restores exactly the pending writes that existed when it was set,
+   for every reachable state and every balanced body *)
+Theorem C08_rollback_exact : rollback_exact_stmt.
+Proof. exact rollback_exact. Qed.
+
+(* mode / closed / empty-key guards of the specification machine: the total decision table *)
+Theorem C08_mode_guards :
+  forall s id t k key v ts, assoc_get id (m_txns s) = Some t ->
+    snd (step s (Write id k key v ts)) =
+      if negb (mutable (t_mode t)) then RErr EReadOnly
+      else if t_closed t then RErr EClosed
+      else match key with [] => RErr EEmptyKey | _ => ROk end.
+Proof.
+  intros s id t k key v ts H. cbn [step]. rewrite H.
+  destruct (mutable (t_mode t)); cbn [negb]; [|reflexivity].
+  destruct (t_closed t); [reflexivity|]. destruct key; reflexivity.
+Qed.
+
+(* nothing of a rolled-back or dropped transaction reaches the committed history *)
+Theorem C08_rollback_leaks_nothing : forall s id, m_hist (fst (step s (Rollback id))) = m_hist s.
+Proof. intros s id. cbn [step]. destruct (assoc_get id (m_txns s)); reflexivity. Qed.
+
+(* non-vacuity: a concrete nested-savepoint program *)
+Example C08_example :
+  let w k v := OWrite {| p_key := [k]; p_kind := KSet; p_val := Some [v]; p_ts := 0 |} in
+  ws_get (m_run [w 1 1; OSave; w 1 2; OSave; w 2 3; ORoll; w 1 4; ORoll]%N ws_empty) [1%N] = Some (Some [1%N]).
+Proof. vm_compute. reflexivity. Qed.
